@@ -4,98 +4,72 @@ import Nv.Proofs.C16Term
 import Nv.Proofs.C16Flush
 import Nv.Proofs.C16World
 import Nv.Proofs.C16Conf
+import Nv.Proofs.C16Ends
 /-!
 C16 — property theorems for `stcp.Session`, `SessionMgr.count` and the accept loop (model: `Nv.Model.C16`).
 
 Every statement quantifies over all reachable states of the transition systems, i.e. over every schedule of the
-two loops, every order and combination of terminating events, any number of queued sends, any number of sessions and
-connection attempts; `c` ranges over the proved configurations. Below the transition level the behaviour of the OS
-(`net.Conn`, deadlines, the Go scheduler) is assumed — see docs/C16.md. For the configuration extracted from
-today's source (`emptySend = quits`) the flush theorem is false: `witness_emptySend_quits`.
+two loops (with `quit` split into its four effects), every order and combination of terminating events, any number
+of queued sends, any number of sessions and connection attempts; `c` ranges over the proved configurations.
+Environment assumption, named in every statement: `OnExitReturns k` — the handler's exit callback returns normally
+(`witness_onexit_panics_leaks`, `witness_onexit_blocks_leaks` show what happens otherwise). Below the transition
+level the behaviour of the OS (`net.Conn`, deadlines, the Go scheduler) is assumed — see docs/C16.md.
 -/
 namespace Nv.C16
+
+theorem reach_returns {c : Cfg} {k : OnExitKind} (hx : OnExitReturns k) {s : Sess} (hr : (sessLTSK c k).Reach s) :
+    (sessLTS c).Reach s := by cases hx; exact hr
 
 /-! ### one session: single exit -/
 
 /-- the exit callback, the count decrement and the connection close each happen at most once, in every reachable state -/
-theorem sess_exit_at_most_once {c : Cfg} (hc : Proved c) (s : Sess) (hr : (sessLTS c).Reach s) :
-    s.exits ≤ 1 ∧ s.decs ≤ 1 ∧ s.closes ≤ 1 := by
-  obtain ⟨h1, h2, h3, _⟩ := sinv_reach hc s hr
-  cases ho : s.onceDone <;> simp [ho] at h1 <;> omega
+theorem sess_exit_at_most_once {c : Cfg} (hc : Proved c) {k : OnExitKind} (hx : OnExitReturns k) (s : Sess)
+    (hr : (sessLTSK c k).Reach s) : s.exits ≤ 1 ∧ s.decs ≤ 1 ∧ s.closes ≤ 1 :=
+  counters_le_one (sinv_reach hc s (reach_returns hx hr))
 
-/-- … and they happen together: all three counters equal 1 once the exit once has fired, 0 before; a loop that has
-    stopped has run `quit`; no panic escapes -/
-theorem sess_exit_together {c : Cfg} (hc : Proved c) (s : Sess) (hr : (sessLTS c).Reach s) :
-    s.exits = (if s.onceDone then 1 else 0) ∧ s.decs = s.exits ∧ s.closes = s.exits ∧
+/-- … in the order OnExit, Dec, Close, all of them done once the once has finished and none before it is taken; a
+    loop that has stopped has seen the once finished; no panic escapes -/
+theorem sess_exit_together {c : Cfg} (hc : Proved c) {k : OnExitKind} (hx : OnExitReturns k) (s : Sess)
+    (hr : (sessLTSK c k).Reach s) :
+    s.closes ≤ s.decs ∧ s.decs ≤ s.exits ∧
+    (s.onceTaken = false → s.exits = 0) ∧ (s.onceDone = true → s.exits = 1 ∧ s.decs = 1 ∧ s.closes = 1) ∧
     (s.sendPc = .done → s.onceDone = true) ∧ (s.recvPc = .done → s.onceDone = true) ∧ s.crashed = false := by
-  obtain ⟨h1, h2, h3, _, h5, h6, h7⟩ := sinv_reach hc s hr
-  exact ⟨h1, h2, h3, h5, h6, h7⟩
+  have hS := sinv_reach hc s (reach_returns hx hr)
+  obtain ⟨h1, h2, h3, h4, h5, h6, h7, h8, h9⟩ := hS
+  refine ⟨?_, ?_, fun a => (h5 a).2.1, fun a => ⟨(h6 a).2.1, (h6 a).2.2.1, (h6 a).2.2.2.1⟩, h3, h4, h2⟩
+  all_goals
+    cases ht : s.onceTaken
+    · obtain ⟨_, a, b, c⟩ := h5 ht; omega
+    · cases hd : s.onceDone
+      · obtain ⟨e1, o⟩ := h7 ht hd
+        rcases o with ⟨st, o, ne⟩ | ⟨p, st, o, ne⟩
+        · obtain ⟨_, _, ok, _⟩ := h8 st o ne
+          cases st <;> simp [stageOk] at ok ne <;> omega
+        · obtain ⟨_, _, ok, _⟩ := h9 p st o ne
+          cases st <;> simp [stageOk] at ok ne <;> omega
+      · obtain ⟨_, a, b, c, _⟩ := h6 hd; omega
 
 /-! ### one session: terminal states -/
 
 /-- In every reachable state in which neither loop can move, the session is either over — exit callback ran exactly
     once, count given back exactly once, connection closed, both loops stopped — or it is still fully alive and
     waiting: nothing has been released, the read loop is blocked on an open connection, and the send loop is parked on
-    an empty open queue or blocked writing to a peer that does not read. -/
-theorem sess_terminal_state {c : Cfg} (hc : Proved c) (s : Sess) (hr : (sessLTS c).Reach s) (hq : quiescent c s) :
-    ended s ∨ waiting s := by
-  rw [quiescent_proved hc] at hq
-  exact quiescentP_cases (sinv_reach hc s hr) hq.1 hq.2
+    an empty open queue or blocked writing to a peer that does not read. (No state "in the middle of quit" is
+    quiescent: the owner of the once can always move.) -/
+theorem sess_terminal_state {c : Cfg} (hc : Proved c) {k : OnExitKind} (hx : OnExitReturns k) (s : Sess)
+    (hr : (sessLTSK c k).Reach s) (hq : quiescent c s) : ended s ∨ waiting s := by
+  have hS := sinv_reach hc s (reach_returns hx hr)
+  rw [quiescent_proved hc hS] at hq
+  exact quiescentP_cases hS hq.1 hq.2
 
-/-- whatever ends it: once any terminating condition holds, a quiescent state is an ended one. The conditions are
-    stable (`terminating_condition_stable`), so this is "after the event, as soon as the loops have run". -/
-theorem sess_terminating_event_ends {c : Cfg} (hc : Proved c) (s : Sess) (hr : (sessLTS c).Reach s) (hq : quiescent c s)
-    (hev : s.recvPc ≠ .reading                                  -- read error / timeout / handler error / panic
-        ∨ s.peerClosed = true                                   -- peer close
-        ∨ s.closes ≠ 0
-        ∨ (s.qClosed = true ∧ (s.peerDrain = true ∨ ∀ x, s.sendPc ≠ .writing x))   -- local Close, write not blocked
-        ∨ (s.wfault = true ∧ ∃ x, s.sendPc = .writing x)) :     -- write error / timeout while writing
-    ended s := by
-  rcases sess_terminal_state hc s hr hq with h | ⟨_, _, _, w4, w5, w6, w7⟩
+/-- whatever ends it, state form: once a terminating condition holds (`Doomed`: the read loop has left its read, the
+    peer or the connection is closed, a failing write is in progress or ahead, or the queue is closed and no write can
+    stay blocked), a quiescent state is an ended one -/
+theorem sess_terminating_event_ends {c : Cfg} (hc : Proved c) {k : OnExitKind} (hx : OnExitReturns k) (s : Sess)
+    (hr : (sessLTSK c k).Reach s) (hq : quiescent c s) (hev : Doomed s) : ended s := by
+  rcases sess_terminal_state hc hx s hr hq with h | h
   · exact h
-  · exfalso
-    rcases hev with h | h | h | ⟨h, h'⟩ | ⟨h, x, h'⟩
-    · exact h w5
-    · simp [w6] at h
-    · exact h w4
-    · rcases w7 with ⟨_, _, a3⟩ | ⟨x, a1, a2, _⟩
-      · simp [a3] at h
-      · rcases h' with h' | h'
-        · simp [a2] at h'
-        · exact h' x a1
-    · rcases w7 with ⟨a1, _, _⟩ | ⟨y, _, _, a3⟩
-      · simp [a1] at h'
-      · simp [a3] at h
-
-/-- the terminating conditions never go away again -/
-theorem terminating_condition_stable {c : Cfg} (hc : Proved c) {s s' : Sess} {a : Act} (hs : step c s a = some s') :
-    (s.recvPc ≠ .reading → s'.recvPc ≠ .reading) ∧ (s.peerClosed = true → s'.peerClosed = true) ∧
-    (s.qClosed = true → s'.qClosed = true) ∧ (s.wfault = true → s'.wfault = true) ∧ (s.closes ≠ 0 → s'.closes ≠ 0) := by
-  have hq := quitP_same s
-  have hqc : s.closes ≠ 0 → (quitP s).closes ≠ 0 := by unfold quitP; split <;> simp <;> omega
-  cases a with
-  | env e =>
-    simp only [step, Option.some.injEq] at hs; subst hs
-    cases e <;> simp only [envStep] <;> (try split) <;> simp_all
-  | sendStep =>
-    rw [step, sendStep_proved hc] at hs
-    unfold sendStepP at hs
-    split at hs
-    · split at hs
-      · split at hs <;> cases hs; simp
-      · split at hs <;> (cases hs; simp)
-    · split at hs
-      · cases hs; simp
-      · split at hs <;> cases hs; simp
-    · cases hs; simp only; exact ⟨by simp [hq.2.2.1], by simp [hq.2.2.2.2.2.1], hq.2.2.2.2.2.2.2.2.2.1, by simp [hq.2.2.2.2.2.2.1], hqc⟩
-    · cases hs
-  | recvStep =>
-    rw [step, recvStep_proved hc] at hs
-    unfold recvStepP at hs
-    split at hs
-    · split at hs <;> cases hs; simp
-    · cases hs; simp only; exact ⟨by simp, by simp [hq.2.2.2.2.2.1], hq.2.2.2.2.2.2.2.2.2.1, by simp [hq.2.2.2.2.2.2.1], hqc⟩
-    · cases hs
+  · exact absurd h (fun w => doomed_not_waiting hev w)
 
 /-! ### one session: progress -/
 
@@ -103,36 +77,38 @@ def Act.internal : Act → Bool
   | .sendStep | .recvStep => true
   | .env _ => false
 
-/-- every loop step strictly decreases `measure s = 2·|queue| + weights ≤ 2·|queue| + 5` -/
-theorem sess_progress {c : Cfg} (hc : Proved c) {s s' : Sess} {a : Act} (ha : a.internal = true)
+/-- every loop step strictly decreases `measure s = 2·|queue| + weights ≤ 2·|queue| + 13` -/
+theorem sess_progress {c : Cfg} (hc : Proved c) {s s' : Sess} {a : Act} (hS : SInv s) (ha : a.internal = true)
     (hs : step c s a = some s') : measure s' < measure s := by
   cases a with
   | env e => simp [Act.internal] at ha
-  | sendStep => rw [step, sendStep_proved hc] at hs; exact measure_sendStepP hs
-  | recvStep => rw [step, recvStep_proved hc] at hs; exact measure_recvStepP hs
+  | sendStep => rw [step, sendStep_proved hc s hS.exit_ret] at hs; exact measure_sendStepP hs
+  | recvStep => rw [step, recvStep_proved hc s hS.exit_ret hS.not_crashed] at hs; exact measure_recvStepP hs
 
-theorem measure_le (s : Sess) : measure s ≤ 2 * s.q.length + 5 := by
+theorem measure_le (s : Sess) : measure s ≤ 2 * s.q.length + 13 := by
   unfold measure
-  cases s.sendPc <;> cases s.recvPc <;> simp [SendPc.weight, RecvPc.weight] <;> omega
+  have h1 : s.sendPc.weight ≤ 7 := by cases s.sendPc <;> simp [SendPc.weight]; rename_i st; cases st <;> simp [QStage.weight]
+  have h2 : s.recvPc.weight ≤ 6 := by cases s.recvPc <;> simp [RecvPc.weight]; rename_i p st; cases st <;> simp [QStage.weight]
+  omega
 
-/-- hence without new environment events the loops take at most `2·queued + 5` more steps (no livelock) -/
-theorem sess_internal_run_bounded {c : Cfg} (hc : Proved c) : ∀ (as : List Act) (s s' : Sess),
+/-- hence without new environment events the loops take at most `2·queued + 13` more steps (no livelock) -/
+theorem sess_internal_run_bounded {c : Cfg} (hc : Proved c) : ∀ (as : List Act) (s s' : Sess), SInv s →
     (∀ a ∈ as, a.internal = true) → (sessLTS c).run s as = some s' → as.length + measure s' ≤ measure s
-  | [], s, s', _, h => by simp [LTS.run] at h; subst h; simp
-  | a :: as, s, s', hi, h => by
+  | [], s, s', _, _, h => by simp [LTS.run] at h; subst h; simp
+  | a :: as, s, s', hS, hi, h => by
     simp only [LTS.run] at h
     cases h1 : (sessLTS c).step s a with
     | none => simp [h1] at h
     | some s1 =>
       simp only [h1] at h
-      have := sess_progress hc (hi a (by simp)) h1
-      have := sess_internal_run_bounded hc as s1 s' (fun b hb => hi b (by simp [hb])) h
+      have := sess_progress hc hS (hi a (by simp)) h1
+      have := sess_internal_run_bounded hc as s1 s' (sinv_step hc hS h1) (fun b hb => hi b (by simp [hb])) h
       simp; omega
 
 /-- running the loops until nothing moves (what the correspondence does after each event) ends in a quiescent,
     reachable state -/
-theorem settle_quiescent {c : Cfg} (hc : Proved c) (s : Sess) : quiescent c (settle c s) :=
-  settleN_quiescent hc (measure s) s (Nat.le_refl _)
+theorem settle_quiescent {c : Cfg} (hc : Proved c) (s : Sess) (hS : SInv s) : quiescent c (settle c s) :=
+  (settleN_quiescent hc (measure s) s hS (Nat.le_refl _)).1
 
 theorem settle_reach {c : Cfg} (s : Sess) (hr : (sessLTS c).Reach s) : (sessLTS c).Reach (settle c s) :=
   settleN_reach _ s hr
@@ -146,104 +122,135 @@ theorem events_reach {c : Cfg} : ∀ (es : List Env) (s : Sess), (sessLTS c).Rea
     simp only [events, List.foldl_cons]
     exact events_reach es _ (event_reach s e hr)
 
-/-- after a peer close, a failing read, a handler error or a handler panic, the settled session is over -/
-theorem event_ends_session {c : Cfg} (hc : Proved c) (s : Sess) (hr : (sessLTS c).Reach s) (e : Env)
-    (he : e = .peerClose ∨ ((e = .readFail ∨ e = .handlerPanic) ∧ s.recvPc = .reading)) :
-    ended (event c s e) ∨ ended s := by
-  left
-  apply sess_terminating_event_ends hc _ (event_reach s e hr) (settle_quiescent hc _)
-  have key : ∀ (n : Nat) (t : Sess), (t.recvPc ≠ .reading ∨ t.peerClosed = true) →
-      ((settleN c n t).recvPc ≠ .reading ∨ (settleN c n t).peerClosed = true) := by
-    intro n
-    induction n with
-    | zero => intro t h; exact h
-    | succ n ih =>
-      intro t h
-      simp only [settleN]
-      cases h1 : sendStep c t with
-      | some t' =>
-        have st := terminating_condition_stable hc (a := Act.sendStep) (s := t) h1
-        exact ih t' (h.imp st.1 st.2.1)
-      | none =>
-        simp only
-        cases h2 : recvStep c t with
-        | some t' =>
-          have st := terminating_condition_stable hc (a := Act.recvStep) (s := t) h2
-          exact ih t' (h.imp st.1 st.2.1)
-        | none => exact h
-  have h0 : (envStep s e).recvPc ≠ .reading ∨ (envStep s e).peerClosed = true := by
-    rcases he with he | ⟨he | he, hrd⟩ <;> subst he <;> simp [envStep, *]
-  rcases key _ _ h0 with h | h
-  · exact Or.inl h
-  · exact Or.inr (Or.inl h)
+/-- runs of loop steps in the P layer -/
+theorem irun_of_run {c : Cfg} (hc : Proved c) : ∀ (as : List Act) (u t : Sess), SInv u → (∀ a ∈ as, a.internal = true) →
+    (sessLTS c).run u as = some t → IRun u t
+  | [], u, t, _, _, h => by simp [LTS.run] at h; subst h; exact IRun.refl _
+  | a :: as, u, t, hS, hi, h => by
+    simp only [LTS.run] at h
+    cases h1 : (sessLTS c).step u a with
+    | none => simp [h1] at h
+    | some u1 =>
+      simp only [h1] at h
+      have h1' : step c u a = some u1 := h1
+      have r := irun_of_run hc as u1 t (sinv_step hc hS h1') (fun b hb => hi b (by simp [hb])) h
+      have hia := hi a (by simp)
+      cases a with
+      | env e => simp [Act.internal] at hia
+      | sendStep => rw [step, sendStep_proved hc u hS.exit_ret] at h1'; exact IRun.send h1' r
+      | recvStep => rw [step, recvStep_proved hc u hS.exit_ret hS.not_crashed] at h1'; exact IRun.recv h1' r
+
+theorem doomed_irun {s t : Sess} (r : IRun s t) (h : Doomed s) : Doomed t := by
+  induction r with
+  | refl => exact h
+  | send hs _ ih => exact ih (doomed_sendStepP h hs)
+  | recv hs _ ih => exact ih (doomed_recvStepP hs)
+
+/-- **Whatever ends it.** For every terminating event of the property's list — local `Close` (`.close`), peer close
+    (`.peerClose`), read error or read timeout (`.readFail`), write error or write timeout (`.writeFail`), a panic in
+    the read handler (`.handlerPanic`) — from ANY reachable state in which the event is a terminating one
+    (`Terminating s e`: always for the read-side events and the peer close; for a failing write when a write is in
+    progress or queued; for a local Close unless a write stays blocked on a peer that does not read), EVERY schedule of
+    loop steps that runs until neither loop can move ends in `ended`: exit callback exactly once, count returned
+    exactly once, connection closed, both loops stopped, no escaped panic. -/
+theorem terminating_event_ends {c : Cfg} (hc : Proved c) {k : OnExitKind} (hx : OnExitReturns k) (s : Sess)
+    (hr : (sessLTSK c k).Reach s) (e : Env) (he : Terminating s e) (as : List Act) (hi : ∀ a ∈ as, a.internal = true)
+    (t : Sess) (hrun : (sessLTS c).run (envStep s e) as = some t) (hq : quiescent c t) : ended t := by
+  have hr' := reach_returns hx hr
+  have hS := sinv_env (sinv_reach hc s hr') e
+  have r := irun_of_run hc as _ t hS hi hrun
+  have hd := doomed_irun r (doomed_of_event he)
+  have hrt : (sessLTS c).Reach t :=
+    LTS.reach_of_run _ as _ _ (LTS.Reach.step (a := Act.env e) hr' rfl) hrun
+  exact sess_terminating_event_ends hc rfl t hrt hq hd
+
+/-- the blocked-write form of a local Close (and of anything else): a write blocked on a silent peer ends the
+    session as soon as the peer reads again or the write fails/times out -/
+theorem blocked_close_ends {c : Cfg} (hc : Proved c) {k : OnExitKind} (hx : OnExitReturns k) (s : Sess)
+    (hr : (sessLTSK c k).Reach s) (hcl : s.qClosed = true) (e : Env) (he : e = .peerDrain ∨ e = .writeFail)
+    (as : List Act) (hi : ∀ a ∈ as, a.internal = true)
+    (t : Sess) (hrun : (sessLTS c).run (envStep s e) as = some t) (hq : quiescent c t) : ended t := by
+  have hr' := reach_returns hx hr
+  have hS := sinv_env (sinv_reach hc s hr') e
+  have r := irun_of_run hc as _ t hS hi hrun
+  have h0 : Doomed (envStep s e) := by
+    unfold Doomed noBlockAhead
+    right; right; right; right
+    rcases he with he | he <;> subst he <;> simp [envStep, hcl]
+  have hrt : (sessLTS c).Reach t :=
+    LTS.reach_of_run _ as _ _ (LTS.Reach.step (a := Act.env e) hr' rfl) hrun
+  exact sess_terminating_event_ends hc rfl t hrt hq (doomed_irun r h0)
+
+/-- in particular the schedule the oracle runs -/
+theorem event_ends_session {c : Cfg} (hc : Proved c) {k : OnExitKind} (hx : OnExitReturns k) (s : Sess)
+    (hr : (sessLTSK c k).Reach s) (e : Env) (he : Terminating s e) : ended (event c s e) := by
+  have hr' := reach_returns hx hr
+  have hS := sinv_env (sinv_reach hc s hr') e
+  have r : IRun (envStep s e) (event c s e) := irun_settleN hc _ _ hS
+  have hd := doomed_irun r (doomed_of_event he)
+  exact sess_terminating_event_ends hc rfl _ (event_reach s e hr') (settle_quiescent hc _ hS) hd
 
 /-- Schedule independence of one script step: from a quiescent reachable state, after one environment event, *every*
     schedule of the two loops that runs until neither can move ends in the same state — the one the oracle computes
     (`event c s e`). So the correspondence compares against the only possible outcome, not against one schedule. -/
-theorem event_schedule_independent {c : Cfg} (hc : Proved c) (s : Sess) (hr : (sessLTS c).Reach s) (hq : quiescent c s)
+theorem event_schedule_independent {c : Cfg} (hc : Proved c) {k : OnExitKind} (hx : OnExitReturns k) (s : Sess)
+    (hr : (sessLTSK c k).Reach s) (hq : quiescent c s)
     (e : Env) (as : List Act) (hi : ∀ a ∈ as, a.internal = true) (t : Sess)
     (hrun : (sessLTS c).run (envStep s e) as = some t) (hqt : quiescent c t) : t = event c s e := by
-  have hS := sinv_env (sinv_reach hc s hr) e
-  have hK := norace_after_event (sess_terminal_state hc s hr hq) e
-  have irun_of_run : ∀ (as : List Act) (u t : Sess), (∀ a ∈ as, a.internal = true) →
-      (sessLTS c).run u as = some t → IRun u t := by
-    intro as
-    induction as with
-    | nil => intro u t _ h; simp [LTS.run] at h; subst h; exact IRun.refl _
-    | cons a as ih =>
-      intro u t hi h
-      simp only [LTS.run] at h
-      cases h1 : (sessLTS c).step u a with
-      | none => simp [h1] at h
-      | some u1 =>
-        simp only [h1] at h
-        have r := ih u1 t (fun b hb => hi b (by simp [hb])) h
-        have hia := hi a (by simp)
-        cases a with
-        | env e => simp [Act.internal] at hia
-        | sendStep => simp only [sessLTS] at h1; rw [step, sendStep_proved hc] at h1; exact IRun.send h1 r
-        | recvStep => simp only [sessLTS] at h1; rw [step, recvStep_proved hc] at h1; exact IRun.recv h1 r
-  have r1 := irun_of_run as _ t hi hrun
-  have n1 := (quiescent_proved hc t).1 hqt
-  have r2 : IRun (envStep s e) (event c s e) := irun_settleN hc _ _
-  have n2 := (quiescent_proved hc _).1 (settle_quiescent hc (envStep s e))
+  have hr' := reach_returns hx hr
+  have hS := sinv_env (sinv_reach hc s hr') e
+  have hK := norace_after_event (sess_terminal_state hc hx s hr hq) e
+  have r1 := irun_of_run hc as _ t hS hi hrun
+  have hSt := (irun_inv r1 hS hK).1
+  have n1 := (quiescent_proved hc hSt).1 hqt
+  have r2 : IRun (envStep s e) (event c s e) := irun_settleN hc _ _ hS
+  have hSe := (irun_inv r2 hS hK).1
+  have n2 := (quiescent_proved hc hSe).1 (settle_quiescent hc (envStep s e) hS)
   exact normal_unique _ _ _ _ (Nat.le_refl _) hS hK r1 n1 r2 n2
 
 /-! ### one session: flush before local close -/
 
-/-- the peer reads a prefix of what `Send` accepted: in order, nothing duplicated or invented — in every reachable state -/
 theorem all_inv_reach {c : Cfg} (hc : Proved c) : ∀ s, (sessLTS c).Reach s → SInv s ∧ GInv s ∧ FOk s :=
   (sessLTS c).inv_of_step (fun s => SInv s ∧ GInv s ∧ FOk s) ⟨sinv_init, ginv_init, fok_init⟩ (by
     intro s a s' ih hs
     have hs' : step c s a = some s' := hs
+    have hx := ih.1.exit_ret
+    have hn := ih.1.not_crashed
     refine ⟨sinv_step hc ih.1 hs', ?_, ?_⟩
     · cases a with
       | env e => simp only [step, Option.some.injEq] at hs'; subst hs'; exact ginv_env ih.2.1 e
-      | sendStep => rw [step, sendStep_proved hc] at hs'; exact ginv_sendStepP ih.2.1 hs'
-      | recvStep => rw [step, recvStep_proved hc] at hs'; exact ginv_recvStepP ih.2.1 hs'
+      | sendStep => rw [step, sendStep_proved hc s hx] at hs'; exact ginv_sendStepP ih.2.1 hs'
+      | recvStep => rw [step, recvStep_proved hc s hx hn] at hs'; exact ginv_recvStepP ih.2.1 hs'
     · cases a with
       | env e => simp only [step, Option.some.injEq] at hs'; subst hs'; exact fok_env ih.2.2 e
-      | sendStep => rw [step, sendStep_proved hc] at hs'; exact fok_sendStepP ih.1 ih.2.1 ih.2.2 hs'
-      | recvStep => rw [step, recvStep_proved hc] at hs'; exact fok_recvStepP ih.1 ih.2.2 hs')
+      | sendStep => rw [step, sendStep_proved hc s hx] at hs'; exact fok_sendStepP ih.1 ih.2.1 ih.2.2 hs'
+      | recvStep => rw [step, recvStep_proved hc s hx hn] at hs'; exact fok_recvStepP ih.1 ih.2.2 hs')
 
 /-- the peer reads a prefix of what `Send` accepted: in order, nothing duplicated or invented — in every reachable state -/
-theorem delivered_in_order {c : Cfg} (hc : Proved c) (s : Sess) (hr : (sessLTS c).Reach s) :
-    s.delivered <+: s.accepted.flatten := (all_inv_reach hc s hr).2.1.pref
+theorem delivered_in_order {c : Cfg} (hc : Proved c) {k : OnExitKind} (hx : OnExitReturns k) (s : Sess)
+    (hr : (sessLTSK c k).Reach s) : s.delivered <+: s.accepted.flatten :=
+  (all_inv_reach hc s (reach_returns hx hr)).2.1.pref
 
 /-- Flush before local close: in every reachable state in which no terminating event other than a local `Close`
     has happened (no peer close, no failing read or write, no handler panic), if the connection is closed then the
-    peer has read *all* bytes `Send` accepted, in order. (The connection is closed by `quit` only, so this holds at
-    the moment of closing.) Nothing is accepted after the local Close: `no_accept_after_close`. -/
-theorem flush_before_close {c : Cfg} (hc : Proved c) (s : Sess) (hr : (sessLTS c).Reach s)
-    (hf : s.faulted = false) (hcl : s.closes ≠ 0) : s.delivered = s.accepted.flatten := by
-  obtain ⟨hS, _, hF⟩ := all_inv_reach hc s hr
-  obtain ⟨_, _, f3, f4⟩ := hF hf
-  exact (f4 (f3 (once_of_closes hS hcl))).1
+    peer has read *all* bytes `Send` accepted, in order. (The connection is closed by the last step of `quit` only, so
+    this holds at the moment of closing; already when the once is taken — before OnExit runs — everything has been
+    delivered.) Nothing is accepted after the local Close: `no_accept_after_close`. -/
+theorem flush_before_close {c : Cfg} (hc : Proved c) {k : OnExitKind} (hx : OnExitReturns k) (s : Sess)
+    (hr : (sessLTSK c k).Reach s) (hf : s.faulted = false) (hcl : s.closes ≠ 0 ∨ s.onceTaken = true) :
+    s.delivered = s.accepted.flatten := by
+  obtain ⟨hS, _, hF⟩ := all_inv_reach hc s (reach_returns hx hr)
+  obtain ⟨_, _, f3, f4, _⟩ := hF hf
+  have ht : s.onceTaken = true := by
+    rcases hcl with h | h
+    · exact taken_of_closes hS h
+    · exact h
+  exact (f4 (f3 ht)).1
 
 /-- … and until then nothing is lost either: while the send loop runs, delivered ++ in-flight ++ queued = accepted -/
-theorem nothing_lost_while_sending {c : Cfg} (hc : Proved c) (s : Sess) (hr : (sessLTS c).Reach s)
-    (hl : sendLooping s) : s.delivered ++ inflight s ++ s.q.flatten = s.accepted.flatten :=
-  (all_inv_reach hc s hr).2.1.pending hl
+theorem nothing_lost_while_sending {c : Cfg} (hc : Proved c) {k : OnExitKind} (hx : OnExitReturns k) (s : Sess)
+    (hr : (sessLTSK c k).Reach s) (hl : sendLooping s) : s.delivered ++ inflight s ++ s.q.flatten = s.accepted.flatten :=
+  (all_inv_reach hc s (reach_returns hx hr)).2.1.pending hl
 
 theorem no_accept_after_close (s : Sess) (bs : List Nat) (h : s.qClosed = true) :
     sendAccepted s = false ∧ (envStep s (.send bs)).accepted = s.accepted := by
@@ -254,61 +261,55 @@ def Act.benign : Act → Bool
   | .env (.send _) | .env .close | .env .peerDrain | .env .peerHold | .env .peerData | .sendStep | .recvStep => true
   | _ => false
 
+theorem faulted_unchanged {c : Cfg} (hc : Proved c) {s s' : Sess} {a : Act} (hS : SInv s) (hb : a.benign = true)
+    (hs : step c s a = some s') : s'.faulted = s.faulted := by
+  cases a with
+  | env e =>
+    simp only [step, Option.some.injEq] at hs; subst hs
+    cases e <;> simp [Act.benign] at hb <;> simp only [envStep] <;> (try split) <;> rfl
+  | sendStep =>
+    rw [step, sendStep_proved hc s hS.exit_ret] at hs
+    unfold sendStepP at hs
+    repeat' split at hs
+    all_goals first | (cases hs; rfl) | cases hs
+  | recvStep =>
+    rw [step, recvStep_proved hc s hS.exit_ret hS.not_crashed] at hs
+    unfold recvStepP at hs
+    repeat' split at hs
+    all_goals first | (cases hs; rfl) | cases hs
+
 /-- trace form: along any run made only of sends, local closes, the peer reading or pausing, handler data and loop
     steps — in any order and number — a closed connection means everything accepted was delivered, in order -/
 theorem flush_before_close_trace {c : Cfg} (hc : Proved c) (as : List Act) (s : Sess)
     (hb : ∀ a ∈ as, a.benign = true) (hrun : (sessLTS c).run Sess.init as = some s) (hcl : s.closes ≠ 0) :
     s.delivered = s.accepted.flatten := by
   have hr : (sessLTS c).Reach s := LTS.reach_of_run _ as _ _ LTS.Reach.init hrun
-  apply flush_before_close hc s hr _ hcl
-  have key : ∀ (as : List Act) (t t' : Sess), (∀ a ∈ as, a.benign = true) → t.faulted = false →
+  apply flush_before_close hc rfl s hr _ (Or.inl hcl)
+  have key : ∀ (as : List Act) (t t' : Sess), SInv t → (∀ a ∈ as, a.benign = true) → t.faulted = false →
       (sessLTS c).run t as = some t' → t'.faulted = false := by
     intro as
     induction as with
-    | nil => intro t t' _ h0 h; simp [LTS.run] at h; subst h; exact h0
+    | nil => intro t t' _ _ h0 h; simp [LTS.run] at h; subst h; exact h0
     | cons a as ih =>
-      intro t t' hb h0 h
+      intro t t' hS hb h0 h
       simp only [LTS.run] at h
       cases h1 : (sessLTS c).step t a with
       | none => simp [h1] at h
       | some t1 =>
         simp only [h1] at h
-        refine ih t1 t' (fun b hb' => hb b (by simp [hb'])) ?_ h
-        have hba := hb a (by simp)
-        have hq := quitP_same t
-        cases a with
-        | env e =>
-          simp only [sessLTS, step, Option.some.injEq] at h1; subst h1
-          cases e <;> simp [Act.benign] at hba <;> simp only [envStep] <;> (try split) <;> simp [h0]
-        | sendStep =>
-          simp only [sessLTS] at h1; rw [step, sendStep_proved hc] at h1
-          unfold sendStepP at h1
-          split at h1
-          · split at h1
-            · split at h1 <;> cases h1; simp [h0]
-            · split at h1 <;> (cases h1; simp [h0])
-          · split at h1
-            · cases h1; simp [h0]
-            · split at h1 <;> cases h1; simp [h0]
-          · cases h1; simp [hq.2.2.2.2.2.2.2.1, h0]
-          · cases h1
-        | recvStep =>
-          simp only [sessLTS] at h1; rw [step, recvStep_proved hc] at h1
-          unfold recvStepP at h1
-          split at h1
-          · split at h1 <;> cases h1; simp [h0]
-          · cases h1; simp [hq.2.2.2.2.2.2.2.1, h0]
-          · cases h1
-  exact key as Sess.init s hb rfl hrun
+        have h1' : step c t a = some t1 := h1
+        refine ih t1 t' (sinv_step hc hS h1') (fun b hb' => hb b (by simp [hb'])) ?_ h
+        rw [faulted_unchanged hc hS (hb a (by simp)) h1']; exact h0
+  exact key as Sess.init s sinv_init hb rfl hrun
 
 /-! ### many sessions: the manager's count and the accept loop -/
 
 /-- every session of a reachable world is in a reachable state of the one-session system, so all theorems above
     hold for each of any number of simultaneous sessions -/
-theorem world_sess_reach {c : Cfg} (max : Int) : ∀ w, (worldLTS c max).Reach w →
-    w.max = max ∧ ∀ s ∈ w.sess, (sessLTS c).Reach s :=
-  (worldLTS c max).inv_of_step (fun w => w.max = max ∧ ∀ s ∈ w.sess, (sessLTS c).Reach s)
-    ⟨rfl, by intro s hs; simp [worldLTS] at hs⟩ (by
+theorem world_sess_reach {c : Cfg} (max : Int) (k : OnExitKind) : ∀ w, (worldLTSK c max k).Reach w →
+    w.max = max ∧ w.onExit = k ∧ ∀ s ∈ w.sess, (sessLTSK c k).Reach s :=
+  (worldLTSK c max k).inv_of_step (fun w => w.max = max ∧ w.onExit = k ∧ ∀ s ∈ w.sess, (sessLTSK c k).Reach s)
+    ⟨rfl, rfl, by intro s hs; simp [worldLTSK] at hs⟩ (by
     intro w a w' ih hs
     have hs' : wstep c w a = some w' := hs
     cases a with
@@ -317,12 +318,12 @@ theorem world_sess_reach {c : Cfg} (max : Int) : ∀ w, (worldLTS c max).Reach w
       split at hs'
       · cases hs'; exact ih
       · cases hs'
-        refine ⟨ih.1, ?_⟩
+        refine ⟨ih.1, ih.2.1, ?_⟩
         intro s hm
         rcases List.mem_append.1 hm with hm | hm
-        · exact ih.2 s hm
-        · simp at hm; subst hm; exact LTS.Reach.init
-    | sess k a =>
+        · exact ih.2.2 s hm
+        · simp at hm; subst hm; rw [ih.2.1]; exact LTS.Reach.init
+    | sess j a =>
       simp only [wstep] at hs'
       split at hs'
       · cases hs'
@@ -331,42 +332,49 @@ theorem world_sess_reach {c : Cfg} (max : Int) : ∀ w, (worldLTS c max).Reach w
         · cases hs'
         · rename_i s1 hst
           cases hs'
-          refine ⟨ih.1, ?_⟩
+          refine ⟨ih.1, ih.2.1, ?_⟩
           intro s hm
           rcases List.mem_or_eq_of_mem_set hm with hm | hm
-          · exact ih.2 s hm
+          · exact ih.2.2 s hm
           · subst hm
-            exact LTS.Reach.step (ih.2 s0 (List.mem_of_getElem? hk)) hst)
+            exact LTS.Reach.step (ih.2.2 s0 (List.mem_of_getElem? hk)) hst)
 
-/-- balanced count: in every reachable world the count equals the number of sessions whose exit has not fired —
-    each session adds one at `Start` and gives exactly that one back, whatever ends it -/
-theorem count_balanced {c : Cfg} (hc : Proved c) (max : Int) (w : World) (hr : (worldLTS c max).Reach w) :
-    w.count = (aliveNum w.sess : Int) :=
-  liveCount_eq_alive w.sess (fun s hs => sinv_reach hc s ((world_sess_reach max w hr).2 s hs))
+theorem world_sinv {c : Cfg} (hc : Proved c) (max : Int) {k : OnExitKind} (hx : OnExitReturns k) (w : World)
+    (hr : (worldLTSK c max k).Reach w) : ∀ s ∈ w.sess, SInv s :=
+  fun s hs => sinv_reach hc s (reach_returns hx ((world_sess_reach max k w hr).2.2 s hs))
 
-theorem count_nonneg {c : Cfg} (hc : Proved c) (max : Int) (w : World) (hr : (worldLTS c max).Reach w) : 0 ≤ w.count := by
-  rw [count_balanced hc max w hr]; omega
+/-- balanced count: in every reachable world the count equals the number of sessions that have not executed their
+    `count.Dec()` — each session adds one at `Start` and gives exactly that one back, whatever ends it -/
+theorem count_balanced {c : Cfg} (hc : Proved c) (max : Int) {k : OnExitKind} (hx : OnExitReturns k) (w : World)
+    (hr : (worldLTSK c max k).Reach w) : w.count = (aliveNum w.sess : Int) :=
+  liveCount_eq_alive w.sess (world_sinv hc max hx w hr)
+
+theorem count_nonneg {c : Cfg} (hc : Proved c) (max : Int) {k : OnExitKind} (hx : OnExitReturns k) (w : World)
+    (hr : (worldLTSK c max k).Reach w) : 0 ≤ w.count := by
+  rw [count_balanced hc max hx w hr]; omega
 
 /-- the count never exceeds the configured maximum -/
-theorem count_le_max {c : Cfg} (hc : Proved c) (max : Int) (hmax : 0 ≤ max) (w : World)
-    (hr : (worldLTS c max).Reach w) : w.count ≤ max := by
-  have key : ∀ w, (worldLTS c max).Reach w → w.max = max ∧ w.count ≤ max :=
-    (worldLTS c max).inv_of_step (fun w => w.max = max ∧ w.count ≤ max)
-      ⟨rfl, by simpa [worldLTS, World.count, liveCount] using hmax⟩ (by
+theorem count_le_max {c : Cfg} (hc : Proved c) (max : Int) (hmax : 0 ≤ max) {k : OnExitKind} (hx : OnExitReturns k)
+    (w : World) (hr : (worldLTSK c max k).Reach w) : w.count ≤ max := by
+  have key : ∀ w, (worldLTSK c max k).Reach w → (worldLTSK c max k).Reach w ∧ w.max = max ∧ w.count ≤ max :=
+    (worldLTSK c max k).inv_of_step (fun w => (worldLTSK c max k).Reach w ∧ w.max = max ∧ w.count ≤ max)
+      ⟨LTS.Reach.init, rfl, by simpa [worldLTSK, World.count, liveCount] using hmax⟩ (by
       intro w a w' ih hs
       have hs' : wstep c w a = some w' := hs
+      refine ⟨LTS.Reach.step ih.1 hs, ?_⟩
       cases a with
       | connect =>
         simp only [wstep] at hs'
         split at hs'
-        · cases hs'; exact ih
+        · cases hs'; exact ih.2
         · rename_i hfull
           cases hs'
-          refine ⟨ih.1, ?_⟩
+          refine ⟨ih.2.1, ?_⟩
           simp only [full, hc.2.2.2.2.2.2.2.2.2.2, Bool.not_eq_true, decide_eq_false_iff_not] at hfull
           simp only [World.count, liveCount_append] at hfull ⊢
-          simp [Sess.init]; omega
-      | sess k a =>
+          have := ih.2.1
+          simp [Sess.initWith]; omega
+      | sess j a =>
         simp only [wstep] at hs'
         split at hs'
         · cases hs'
@@ -375,18 +383,20 @@ theorem count_le_max {c : Cfg} (hc : Proved c) (max : Int) (hmax : 0 ≤ max) (w
           · cases hs'
           · rename_i s1 hst
             cases hs'
-            refine ⟨ih.1, ?_⟩
-            have hm := decs_mono_P hc hst
-            have := liveCount_set w.sess k s0 s1 hk
-            simp only [World.count] at ih ⊢
+            refine ⟨ih.2.1, ?_⟩
+            have hS0 := world_sinv hc max hx w ih.1 s0 (List.mem_of_getElem? hk)
+            have hm := decs_mono_P hc hS0 hst
+            have := liveCount_set w.sess j s0 s1 hk
+            have := ih.2.2
+            simp only [World.count] at this ⊢
             omega)
-  exact (key w hr).2
+  exact (key w hr).2.2
 
 /-- with a negative maximum nothing is ever admitted -/
-theorem negative_max_admits_nothing {c : Cfg} (hc : Proved c) (max : Int) (hmax : max < 0) (w : World)
-    (hr : (worldLTS c max).Reach w) : w.sess = [] := by
-  have key : ∀ w, (worldLTS c max).Reach w → w.max = max ∧ w.sess = [] :=
-    (worldLTS c max).inv_of_step (fun w => w.max = max ∧ w.sess = []) ⟨rfl, rfl⟩ (by
+theorem negative_max_admits_nothing {c : Cfg} (hc : Proved c) (max : Int) (hmax : max < 0) (k : OnExitKind) (w : World)
+    (hr : (worldLTSK c max k).Reach w) : w.sess = [] := by
+  have key : ∀ w, (worldLTSK c max k).Reach w → w.max = max ∧ w.sess = [] :=
+    (worldLTSK c max k).inv_of_step (fun w => w.max = max ∧ w.sess = []) ⟨rfl, rfl⟩ (by
       intro w a w' ih hs
       have hs' : wstep c w a = some w' := hs
       cases a with
@@ -399,7 +409,7 @@ theorem negative_max_admits_nothing {c : Cfg} (hc : Proved c) (max : Int) (hmax 
           simp only [full, hc.2.2.2.2.2.2.2.2.2.2, Bool.not_eq_true, decide_eq_false_iff_not] at hfull
           simp only [World.count, ih.2, liveCount, ih.1] at hfull
           omega
-      | sess k a => simp [wstep, ih.2] at hs')
+      | sess j a => simp [wstep, ih.2] at hs')
   exact (key w hr).2
 
 /-- surplus connections are closed on accept, and only those: the accept loop closes the new connection exactly
@@ -407,28 +417,29 @@ theorem negative_max_admits_nothing {c : Cfg} (hc : Proved c) (max : Int) (hmax 
 theorem accept_decision {c : Cfg} (hc : Proved c) (w : World) :
     wstep c w .connect =
       if w.count ≥ w.max then some { w with rejected := w.rejected + 1 }
-      else some { w with sess := w.sess ++ [Sess.init] } := by
+      else some { w with sess := w.sess ++ [Sess.initWith w.onExit] } := by
   simp only [wstep, full, hc.2.2.2.2.2.2.2.2.2.2]
   by_cases h : w.count ≥ w.max <;> simp [h]
 
-/-- when every session of a reachable world is quiescent, the count is exactly the number of sessions that are
-    still waiting: every ended session has returned the count to its previous value -/
-theorem count_at_quiescence {c : Cfg} (hc : Proved c) (max : Int) (w : World) (hr : (worldLTS c max).Reach w)
-    (hq : ∀ s ∈ w.sess, quiescent c s) :
-    (∀ s ∈ w.sess, ended s ∨ waiting s) ∧ w.count = ((w.sess.filter (fun s => !s.onceDone)).length : Int) := by
-  have hsr := (world_sess_reach max w hr).2
-  refine ⟨fun s hs => sess_terminal_state hc s (hsr s hs) (hq s hs), ?_⟩
-  rw [count_balanced hc max w hr]
-  have : ∀ l : List Sess, aliveNum l = (l.filter (fun s => !s.onceDone)).length := by
+/-- when every session of a reachable world is quiescent, each is ended or waiting and the count is exactly the number
+    of sessions still waiting: every ended session has returned the count to its previous value -/
+theorem count_at_quiescence {c : Cfg} (hc : Proved c) (max : Int) {k : OnExitKind} (hx : OnExitReturns k) (w : World)
+    (hr : (worldLTSK c max k).Reach w) (hq : ∀ s ∈ w.sess, quiescent c s) :
+    (∀ s ∈ w.sess, ended s ∨ waiting s) ∧ w.count = ((w.sess.filter (fun s => decide (s.decs = 0))).length : Int) := by
+  have hsr := (world_sess_reach max k w hr).2.2
+  refine ⟨fun s hs => sess_terminal_state hc hx s (hsr s hs) (hq s hs), ?_⟩
+  rw [count_balanced hc max hx w hr]
+  have : ∀ l : List Sess, aliveNum l = (l.filter (fun s => decide (s.decs = 0))).length := by
     intro l
     induction l with
     | nil => rfl
-    | cons x xs ih => cases ho : x.onceDone <;> simp [aliveNum, ho, ih] <;> omega
+    | cons x xs ih => by_cases h : x.decs = 0 <;> simp [aliveNum, h, ih] <;> omega
   rw [this]
 
 /-! ### non-vacuity: concrete reachable states satisfying the hypotheses -/
 
 example : Proved Cfg.good := by decide
+example : OnExitReturns .returns := by decide
 
 /-- a session ended by a handler panic after two sends: reachable, quiescent, ended -/
 example : let s := events Cfg.good Sess.init [.send [1, 2], .send [3], .peerData, .handlerPanic]
@@ -437,27 +448,56 @@ example : let s := events Cfg.good Sess.init [.send [1, 2], .send [3], .peerData
 /-- local Close behind a blocked write and two queued items: not over while the peer does not read (`waiting`),
     everything delivered in order once it does, then closed -/
 example : let s := events Cfg.good Sess.init [.peerHold, .send [1], .send [2, 3], .send [4], .close]
-    quiescent Cfg.good s ∧ ¬ ended s ∧ s.closes = 0 ∧ s.faulted = false := by decide
+    quiescent Cfg.good s ∧ ¬ ended s ∧ s.closes = 0 ∧ s.faulted = false ∧ ¬ Terminating s .close ∧ Terminating s .writeFail := by decide
 example : let s := events Cfg.good Sess.init [.peerHold, .send [1], .send [2, 3], .send [4], .close, .send [9], .peerDrain]
     ended s ∧ s.closes ≠ 0 ∧ s.faulted = false ∧ s.delivered = [1, 2, 3, 4] ∧ s.accepted = [[1], [2, 3], [4]] := by decide
 
-/-- the peer closes while a write is blocked: both loops can move; the receive-first schedule ends where the oracle's
-    send-first schedule (`event`) ends -/
+/-- `terminating_event_ends` is about every state, also one in the middle of things: a blocked write, two queued
+    items; the write fails (error or timeout) — a schedule with the receive loop scheduled late -/
+example : let s := events Cfg.good Sess.init [.peerHold, .send [1], .send [2]]
+    Terminating s .writeFail ∧
+    ((sessLTS Cfg.good).run (envStep s .writeFail)
+      [.sendStep, .sendStep, .sendStep, .sendStep, .sendStep, .recvStep, .recvStep]).map (fun t => decide (ended t)) = some true := by decide
+
+/-- the peer closes while a write is blocked: both loops race for `exitOnce`; the receive-first schedule ends where
+    the oracle's send-first schedule (`event`) ends -/
 example : let s := events Cfg.good Sess.init [.peerHold, .send [1], .send [2]]
     quiescent Cfg.good s ∧
-    (sessLTS Cfg.good).run (envStep s .peerClose) [.recvStep, .recvStep, .sendStep, .sendStep] = some (event Cfg.good s .peerClose) ∧
+    (sessLTS Cfg.good).run (envStep s .peerClose)
+      [.recvStep, .sendStep, .recvStep, .recvStep, .recvStep, .recvStep, .sendStep] = some (event Cfg.good s .peerClose) ∧
     quiescent Cfg.good (event Cfg.good s .peerClose) := by decide
 
-/-- three connection attempts against maxConn = 2, one session ends, a fourth attempt -/
+/-- three connection attempts against maxConn = 2, one session ends (all steps of its quit), a fourth attempt -/
 example : ((worldLTS Cfg.good 2).run { max := 2 }
-    [.connect, .connect, .connect, .sess 0 (.env .peerClose), .sess 0 .recvStep, .sess 0 .recvStep, .sess 0 .sendStep,
-     .sess 0 .sendStep, .connect]).map (fun w => (w.count, w.rejected, w.sess.length)) = some (2, 1, 3) := by decide
+    [.connect, .connect, .connect, .sess 0 (.env .peerClose), .sess 0 .recvStep, .sess 0 .recvStep, .sess 0 .recvStep,
+     .sess 0 .recvStep, .sess 0 .recvStep, .sess 0 .sendStep, .sess 0 .sendStep, .connect]).map
+      (fun w => (w.count, w.rejected, w.sess.length)) = some (2, 1, 3) := by decide
+
+/-- between the steps of `quit` the count is already returned while the connection is still open -/
+example : ((worldLTS Cfg.good 2).run { max := 2 }
+    [.connect, .sess 0 (.env .peerClose), .sess 0 .recvStep, .sess 0 .recvStep, .sess 0 .recvStep]).map
+      (fun w => (w.count, w.sess.map (fun s => (s.exits, s.decs, s.closes)))) = some (0, [(1, 1, 0)]) := by decide
+
+/-! ### the environment assumption: an exit callback that does not return -/
+
+/-- OnExit panics: `sync.Once` is marked done, the rest of `quit` is skipped; `recovery` swallows the panic. The count
+    is not returned, the connection stays open and the send loop stays parked — for ever. (Observed on the real code;
+    outside the property's list of terminating events; hardening proposal: fixes/C16-onexit-panic-safe.diff.txt.) -/
+theorem witness_onexit_panics_leaks :
+    let s := events Cfg.good (Sess.initWith .panics) [.peerClose]
+    quiescent Cfg.good s ∧ s.exits = 1 ∧ s.decs = 0 ∧ s.closes = 0 ∧ s.recvPc = .done ∧ s.sendPc = .idle ∧
+    s.crashed = false ∧ ¬ ended s := by decide
+
+/-- OnExit blocks: the loop that won the once never comes back, the other one waits in `exitOnce.Do` or stays parked -/
+theorem witness_onexit_blocks_leaks :
+    let s := events Cfg.good (Sess.initWith .blocks) [.send [1], .close]
+    quiescent Cfg.good s ∧ s.exits = 1 ∧ s.decs = 0 ∧ s.closes = 0 ∧ s.sendPc = .quitting .stuck ∧ s.recvPc = .reading := by decide
 
 /-! ### the configurations for which the property is false: concrete witnesses (replayed on the real code by
-    `c16 corr`, fixed cases tagged `witness`) -/
+    `c16 corr`, fixed cases tagged `witness`, on a tree with the corresponding edit) -/
 
-/-- today's source: a zero-length item makes `loopSend` return; items accepted after it and before the local Close
-    are never written. Script: hold, send 6161, send -, send 6262, close, drain. -/
+/-- the source before fix 2279fa4: a zero-length item makes `loopSend` return; items accepted after it and before the
+    local Close are never written. Script: hold, send 6161, send -, send 6262, close, drain. -/
 theorem witness_emptySend_quits :
     let c : Cfg := { Cfg.good with emptySend := .quits }
     let s := events c Sess.init [.peerHold, .send [0x61, 0x61], .send [], .send [0x62, 0x62], .close, .peerDrain]
